@@ -191,6 +191,14 @@ fn run_case(case: u64, rng: &mut Rng, rep: &mut Report) {
             r[0] = 1;
         }
     }
+    if rng.chance(0.05) {
+        // counts as large as the type allows (CountMatrix::new takes any u32): position totals
+        // above 2^32
+        let i = rng.below(w);
+        counts[i][rng.below(4)] = u32::MAX - rng.below(3) as u32;
+        counts[i][rng.below(4)] = 3_000_000_000;
+        rep.cover("class.position_total_above_2^32");
+    }
     // positions without any observation (legal for CountMatrix::new and the file readers): with a
     // zero pseudocount their frequencies are 0/0 = NaN on both strands alike
     let mut empty_rows = false;
